@@ -97,6 +97,11 @@ CHECKS = {
         text="One logical binding environment (ints, floats, strings, bool, nil, flat/nested/empty lists, maps, list of maps; ~60 value-tree nodes) is realised in Go representations chosen independently at every node (numeric width, Drop by value or by pointer, pointer, typed slice, fixed array, typed map, ordered YAML map, []byte) and rendered through 28 templates that use each binding only in the positions the statement names; exploration is deviation-bounded: every assignment with <=1 (quick) / <=2 (thorough) non-default nodes among those a template uses. The oracle is differential - the output of the all-generic assignment - so nothing beyond the statement's position list can be demanded.",
         note="[]byte only printed or as string-filter input; MapSlice only for lookup and size; pointers only at top level or as map values reached by property lookup.",
         tech="deviation-bounded exhaustive enumeration of representation assignments over a value tree with a differential oracle"),
+    "C03": dict(
+        cat="model_checking", ref="4/C03",
+        text="Explicit-state search over call histories: one shared world (one engine, templates parsed once, binding environments built once and shared by reference, exactly as a caller would) and the operations R(t,b) = t.Render(b). All histories of length <=2 over 14 templates x 3 environments (quick) / <=3 over 24 x 4 (thorough, 885 k histories), each replayed on a fresh world, plus 40-step round-robin histories. After every step three invariants are checked: a deep snapshot of every environment (slices up to capacity with sentinels in the spare capacity, aliased sub-slices, unexported fields, pointer identity) is unchanged; the result equals the solo result on a fresh engine, parse and bindings; the parsed render trees and the engine configuration are structurally unchanged. The number of distinct world states reached is reported (exactly one on a correct tree).",
+        note="Successor = replay of the history on a fresh world + one operation (live objects cannot be cloned). Closure-captured state is visible only through the solo-equality invariant.",
+        tech="explicit-state search over operation histories on the real objects with deep-snapshot invariants and a differential solo oracle"),
 }
 
 NOT_YET = "check not built yet (work in progress; see DESIGN.md section 7 build order)"
